@@ -120,7 +120,27 @@ type UFDecl struct {
 
 var termCounter int
 
+var consTable = map[string]*Term{}
+
+// newTerm hash-conses applications: structurally equal terms are pointer-equal.
 func newTerm(op string, s *Sort, args ...*Term) *Term {
+	if len(args) > 0 {
+		var kb strings.Builder
+		kb.WriteString(op)
+		kb.WriteByte('|')
+		kb.WriteString(s.String())
+		for _, a := range args {
+			fmt.Fprintf(&kb, "|%d", a.ID)
+		}
+		k := kb.String()
+		if t, ok := consTable[k]; ok {
+			return t
+		}
+		termCounter++
+		t := &Term{ID: termCounter, Op: op, Args: args, S: s}
+		consTable[k] = t
+		return t
+	}
 	termCounter++
 	return &Term{ID: termCounter, Op: op, Args: args, S: s}
 }
@@ -241,9 +261,50 @@ func flatten(op string, as []*Term, out []*Term) []*Term {
 	return out
 }
 
+// simplifyUnder rewrites t assuming fact is true (only through and/or/not structure).
+func simplifyUnder(t, fact *Term, depth int) *Term {
+	if t == fact {
+		return TTrue
+	}
+	if depth > 6 || t.Lit || t.Var || t.Bound || t.S.K != KBool || t.UF != nil || t.Quant != "" {
+		return t
+	}
+	if isNeg(t, fact) {
+		return TFalse
+	}
+	switch t.Op {
+	case "and", "or":
+		changed := false
+		args := make([]*Term, len(t.Args))
+		for i, a := range t.Args {
+			args[i] = simplifyUnder(a, fact, depth+1)
+			if args[i] != a {
+				changed = true
+			}
+		}
+		if !changed {
+			return t
+		}
+		if t.Op == "and" {
+			return And(args...)
+		}
+		return Or(args...)
+	case "not":
+		a := simplifyUnder(t.Args[0], fact, depth+1)
+		if a == t.Args[0] {
+			return t
+		}
+		return Not(a)
+	}
+	return t
+}
+
 func And(as ...*Term) *Term {
+	if len(as) == 2 && as[0] != TTrue && as[0] != TFalse && as[1].S.K == KBool {
+		as = []*Term{as[0], simplifyUnder(as[1], as[0], 0)}
+	}
 	var out []*Term
-	for _, a := range flatten("and", as, nil) {
+	for _, a := range as {
 		if a == TTrue {
 			continue
 		}
@@ -281,7 +342,7 @@ func andArgs(t *Term) []*Term {
 
 func Or(as ...*Term) *Term {
 	var out []*Term
-	for _, a := range flatten("or", as, nil) {
+	for _, a := range as {
 		if a == TFalse {
 			continue
 		}
@@ -612,6 +673,11 @@ func Forall(vars []*Term, body *Term) *Term {
 	if body == TTrue {
 		return TTrue
 	}
+	if body.Quant == "forall" {
+		n := len(body.Args)
+		vars = append(append([]*Term{}, vars...), body.Args[:n-1]...)
+		body = body.Args[n-1]
+	}
 	t := newTerm("forall", SBool, append(append([]*Term{}, vars...), body)...)
 	t.Quant = "forall"
 	return t
@@ -812,11 +878,11 @@ func (p *Printer) Emit(t *Term) string {
 				fmt.Fprintf(p.out, "(declare-fun %s (%s) %s)\n", t.UF.Name, strings.Join(as, " "), t.UF.Res)
 			}
 		}
+		if strings.HasPrefix(t.Op, "(as const") {
+			p.hasData = true // no restricted logic: z3 4.8 rejects constant arrays under QF_ABV
+		}
 		if len(t.Args) == 0 {
 			s = t.Op
-			if t.S.K == KData && t.UF == nil {
-				s = t.Op
-			}
 		} else {
 			parts := make([]string, 0, len(t.Args)+1)
 			parts = append(parts, t.Op)
